@@ -496,6 +496,70 @@ where
     }
 }
 
+#[cfg(feature = "verif-hooks")]
+impl RepairRequest {
+    /// Verification hook: builds a request.
+    pub fn verif_new(sender: ValidatorIndex, req_type: RepairRequestType) -> Self {
+        Self { sender, req_type }
+    }
+
+    /// Verification hook: the request type.
+    pub fn verif_req_type(&self) -> &RepairRequestType {
+        &self.req_type
+    }
+
+    /// Verification hook: the sender.
+    pub fn verif_sender(&self) -> ValidatorIndex {
+        self.sender
+    }
+}
+
+#[cfg(feature = "verif-hooks")]
+impl<N> RepairRequestHandler<N>
+where
+    N: RepairResponderNetwork,
+{
+    /// Verification hook: answers one request exactly as [`Self::run`] does.
+    pub async fn verif_answer_request(&self, request: RepairRequest) -> std::io::Result<()> {
+        self.answer_request(request).await
+    }
+}
+
+#[cfg(feature = "verif-hooks")]
+impl<N> Repair<N>
+where
+    N: RepairRequesterNetwork,
+{
+    /// Verification hook: handles one response exactly as [`Self::repair_loop`] does.
+    pub async fn verif_handle_response(&mut self, response: RepairResponse) {
+        self.handle_response(response).await;
+    }
+
+    /// Verification hook: fires the earliest request timeout, as the sleep arm of
+    /// [`Self::repair_loop`] does. Returns `false` if no timeout is pending.
+    pub async fn verif_fire_next_timeout(&mut self) -> bool {
+        let Some(Reverse((_, hash))) = self.request_timeouts.pop() else {
+            return false;
+        };
+        if let Some(request) = self.outstanding_requests.remove(&hash) {
+            if let Err(err) = self.send_request(request).await {
+                warn!("sending timed-out repair request failed: {err}");
+            }
+        }
+        true
+    }
+
+    /// Verification hook: the outstanding requests.
+    pub fn verif_outstanding(&self) -> Vec<RepairRequestType> {
+        self.outstanding_requests.values().cloned().collect()
+    }
+
+    /// Verification hook: number of pending timeouts and number of proven slice roots.
+    pub fn verif_sizes(&self) -> (usize, usize) {
+        (self.request_timeouts.len(), self.slice_roots.len())
+    }
+}
+
 #[cfg(test)]
 mod tests {
     use std::collections::BTreeSet;
